@@ -195,6 +195,22 @@ func LongFills(c byte) []string {
 	return out
 }
 
+// DenseMax is the default upper end of dense length sweeps: every length up to two 4 KiB buffers and a bit,
+// so that any boundary of the form 4096-k, 4096+k, 8192-k (k up to a few hundred: a buffer minus a header)
+// is a member, not only the powers of two themselves.
+const DenseMax = 8400
+
+// EachLength calls f with a string of c's of every length from 0 to max.
+func EachLength(c byte, max int, f func(s string)) {
+	b := make([]byte, max)
+	for i := range b {
+		b[i] = c
+	}
+	for n := 0; n <= max; n++ {
+		f(string(b[:n]))
+	}
+}
+
 // ByteFills returns all 256 single-byte strings.
 func ByteFills() []string {
 	out := make([]string, 256)
